@@ -16,11 +16,11 @@ def string_escape_text(crate, b, writer_fn_path):
     Composes ESCAPE[b] -> CharEscape::from_escape_table -> write_*_char_escape by constant
     propagation; returns ("raw", None) | ("esc", bytes) | ("error", reason)."""
     wr = crate.fn(writer_fn_path)
-    # the classifier byte -> CharEscape: an inherent function of CharEscape over u8 arguments, either
-    # (table entry, byte) -> CharEscape with the table lookup at the call site, or byte -> Option<CharEscape>
-    cands = [f for f in crate.fns if f.kind == "assoc" and not f.impl_trait and (f.self_ty or "").endswith("print::CharEscape")
+    # the classifier byte -> CharEscape: a function of the printer (inherent to CharEscape or free) over u8 arguments,
+    # either (table entry, byte) -> CharEscape with the table lookup at the call site, or byte -> Option<CharEscape>
+    cands = [f for f in crate.fns if f.kind in ("assoc", "fn") and not f.impl_trait and f.file.endswith("print.rs")
              and 1 <= f.arg_count <= 2 and all(f.local_ty(i) == "u8" for i in range(1, f.arg_count + 1))
-             and "CharEscape" in f.local_ty(0)]
+             and f.local_ty(0) in ("print::CharEscape", "std::option::Option<print::CharEscape>")]
     if len(cands) != 1 or wr is None:
         return "error", "anchor missing: the byte classifier of print::CharEscape (%d candidates) / %s" % (len(cands), writer_fn_path)
     fet = cands[0]
